@@ -47,6 +47,18 @@ def run(chk):
                 owners.append(sc)
             else:
                 chk.count("iteration_hook_unavailable")
+    # the real clock, in processes whose local time zone is east / west of UTC (and UTC): no virtual time here
+    for tz in ("Asia/Tokyo", "America/New_York", "UTC"):
+        ran, err = rd.real_clock_probe(tz)
+        chk.count("real_clock_probes")
+        if ran is None:
+            chk.violation("realtime:real-clock-probe-crashed", f"TZ={tz}: the probe crashed", {"stderr": err},
+                          no_failing_input=True)
+            continue
+        for fp, msg in rd.monitor_real_clock(tz, ran):
+            if not any(v[0] == fp for v in chk.violations):
+                chk.violation(fp, msg, {"kind": "monitor", "monitor": fp, "tz": tz, "observed": ran,
+                                        "how_to_replay": f"TZ={tz} python -c 'from harness import realtime_driver as rd; rd.real_clock_main()'"})
     res = common.coq_eval_sharded("c15_rt", rd.R_HEADER, items, per_file=15) if items else []
     bad = [(sc, r) for sc, r in zip(owners, res) if r != "None"]
     chk.count("model_agree", len(res) - len(bad))
@@ -61,6 +73,15 @@ def run(chk):
 
 def replay(chk, path):
     d = json.load(open(path))
+    if "tz" in d:
+        ran, err = rd.real_clock_probe(d["tz"])
+        print(ran, err)
+        for fp, msg in (rd.monitor_real_clock(d["tz"], ran) if ran is not None else [("realtime:real-clock-probe-crashed", err)]):
+            print("ALARM", fp, msg)
+            chk.violation(fp, msg, {"kind": "monitor", "tz": d["tz"], "observed": ran})
+        chk.note_case("replay-a")
+        chk.note_case("replay-b")
+        return chk.finish(TRUSTED_EXTRA)
     sc = d["scenario"]
     log, outcome = rd.run_scenario(sc)
     for r in log:
